@@ -101,7 +101,25 @@ func checkHistory(evs []hEvent, localPath string) []string {
 		switch e.Op {
 		case "Add":
 			dirtyAll(true)
-		case "ImportName", "ImportAlias", "ImportNames", "Anon", "Prefix", "CgoPreamble":
+		case "ImportName", "ImportAlias", "ImportNames":
+			// a hint for a path that already appeared in an output produced with this File changes nothing (the
+			// registered name wins); only a hint for a path not seen yet may change later output
+			noop := true
+			for _, hp := range strings.Split(strings.SplitN(e.Arg, " ", 2)[0], ",") {
+				known := false
+				for pi := range seen {
+					if c08Paths[pi] == hp {
+						known = true
+					}
+				}
+				if !known {
+					noop = false
+				}
+			}
+			if !noop {
+				dirtyAll(false)
+			}
+		case "Anon", "Prefix", "CgoPreamble":
 			dirtyAll(false)
 		}
 		switch e.Op {
@@ -181,7 +199,16 @@ func checkHistory(evs []hEvent, localPath string) []string {
 func c08Stmt(r *rand.Rand, pi int, used *[]int) *jen.Statement {
 	q := jen.Qual(c08Paths[pi], fmt.Sprintf("Sym%dX", pi))
 	n := r.Intn(1e6)
-	switch r.Intn(10) {
+	switch r.Intn(12) {
+	case 11:
+		// a literal produced by a function with state: it is evaluated when the statement is built, never again
+		cnt := n
+		return jen.Var().Id(fmt.Sprintf("V_%d", n)).Op("=").Index().Interface().Values(q, jen.LitFunc(func() interface{} { cnt++; return cnt }), jen.LitRuneFunc(func() rune { cnt++; return rune('a' + cnt%26) }))
+	case 10:
+		// pairs with identical keys whose values come from two packages (their order rests on an alias-free rendering)
+		pj := r.Intn(len(c08Paths))
+		*used = append(*used, pj)
+		return jen.Var().Id(fmt.Sprintf("V_%d", n)).Op("=").Id("M").Values(jen.Dict{jen.Id("k").Call(): q, jen.Id("k").Call(): jen.Qual(c08Paths[pj], fmt.Sprintf("Sym%dX", pj)), jen.Id("k").Call(): q.Clone().Call()})
 	case 9:
 		// untyped nil items in front of and between real ones, in several kinds of group
 		return jen.Func().Id(fmt.Sprintf("F_%d", n)).Params(nil, jen.Id("a").Int(), nil, jen.Id("b").Int()).Block(
